@@ -1,10 +1,304 @@
-import Driver.Common
-/-! Judge for C03: not built yet (stub so that the target exists). -/
-open Lean Driver
+import Driver.PX
+open Lean Driver EgVerif.Proxy
 
 namespace Driver.C03
+open Driver.PX
 
-def judges : List (String × Judge) := []
+def hdrEqOn (keys : List String) (a b : Hdr) : Bool := keys.all fun k => a.get k == b.get k
+
+def hdrEq (a b : Hdr) : Bool := hdrEqOn (a.map (·.1) ++ b.map (·.1)) a b
+
+def hdrJson (h : Hdr) : Json :=
+  Json.arr (h.map fun (k, vs) => Json.arr ((k :: vs).map Json.str).toArray).toArray
+
+/-! ## unit judge (pkg/filters/proxy harness) -/
+
+def parseIPTable (obs : Json) : List (String × Bool) :=
+  match getArr obs "ips" with
+  | .ok a => a.toList.filterMap fun e =>
+      match e.getArr? with
+      | .ok p => if p.size ≥ 2 then
+          match p[0]!.getStr?, p[1]!.getBool? with
+          | .ok s, .ok b => some (s, b)
+          | _, _ => none
+        else none
+      | .error _ => none
+  | .error _ => []
+
+/-- Declarative reading of "IP-addressed server" for the well-formed authority shapes
+`name`, `name:port`, `[v6]`, `[v6]:port`; `none` = shape not covered by the statement. -/
+def specHostPart (host : List Char) : Option (List Char) :=
+  let noSq (l : List Char) := !l.contains '[' && !l.contains ']'
+  match host with
+  | '[' :: rest =>
+    let inner := rest.takeWhile (· != ']')
+    let after := (rest.dropWhile (· != ']')).drop 1
+    if rest.contains ']' && noSq inner && (after.isEmpty || (after.head? == some ':' && !(after.drop 1).contains ':' && noSq (after.drop 1)))
+    then some inner else none
+  | _ =>
+    if !noSq host then none
+    else
+      let name := host.takeWhile (· != ':')
+      let after := (host.dropWhile (· != ':')).drop 1
+      if !host.contains ':' then some host
+      else if !after.contains ':' then some name
+      else none
+
+def judgeClone (input obs : Json) : Except String Verdict := do
+  let canon := mkCanon (parsePairs obs "canon")
+  let lines := parsePairs input "hdrs"
+  let h := linesToHdr canon lines
+  let want := cloneHeader canon hopHeaders h
+  let got := parseSeenHdr obs "hdrs"
+  let agree := hdrEq want got
+  let viol := Spec.headerViolation canon h got []
+  let toks := connTokens canon h
+  let hasHop := h.any fun e => Spec.rfcHopHeaders.contains e.1
+  let tokHit := toks.any fun t => (h.get t) != []
+  pure { agree := agree, spec := viol.isNone, expected := hdrJson want,
+         tags := ["clone"] ++ (if toks.isEmpty then ["no-conn-token"] else ["conn-tokens"]) ++
+                 (if tokHit then ["token-names-present-header"] else []) ++ (if hasHop then ["has-hop"] else []),
+         nontrivial := hasHop || tokHit,
+         sig := match viol with | some (kind, k) => s!"clone:{kind}:{k}" | none => "" }
+
+def judgeAddr (input obs : Json) : Except String Verdict := do
+  let parsed := optBool obs "parsed"
+  let got := optBool obs "isHostName"
+  if !parsed then
+    return { agree := got == false, spec := true, tags := ["addr", "unparsable-url"], nontrivial := false,
+             expected := Json.mkObj [("isHostName", false)] }
+  let uhost := (optStr obs "uhost").toList
+  let table := parseIPTable obs
+  let missing := (table.lookup (String.ofList uhost)).isNone
+  let isIP : List Char → Bool := fun l => (table.lookup (String.ofList l)).getD false
+  let want := addrIsHostName isIP uhost
+  let (spec, shape) := match specHostPart uhost with
+    | some hp => (got == !isIP hp, "shaped")
+    | none => (true, "odd-shape")
+  let _ := input
+  if missing && !uhost.isEmpty then throw "ip oracle lacks u.Host"
+  pure { agree := got == want, spec := spec, expected := Json.mkObj [("isHostName", want)],
+         tags := ["addr", shape, if want then "hostname" else "ip"] ++
+                 (if uhost.contains '[' then ["bracket"] else []) ++ (if uhost.contains ':' then ["colon"] else []),
+         nontrivial := uhost.contains ':' || uhost.contains '[',
+         sig := if spec then "" else "addr:misclassified" }
+
+def skipOnWire : List String := ["Transfer-Encoding", "Content-Length", "Host", "Trailer"]
+
+def judgePrep (input obs : Json) : Except String Verdict := do
+  let err := optStr obs "err"
+  if err == "client-request-rejected-by-net/http" then
+    return { agree := true, spec := true, tags := ["prep", "rejected-by-net/http"], nontrivial := false }
+  let canon := mkCanon (parsePairs obs "canon")
+  let lines := (parsePairs input "hdrs").filter fun (k, _) => !skipOnWire.contains (canon k)
+  let bodyLen := (optInt input "bodyLen").toNat
+  let h := linesToHdr canon (lines ++ [("Content-Length", toString bodyLen)])
+  let serverURL := optStr input "url"
+  let keepHost := optBool input "keepHost"
+  let clientHost := optStr input "host"
+  let escPath := optStr obs "escPath"
+  let decPath := optStr obs "decPath"
+  let rawQuery := optStr obs "rawQuery"
+  let uhost := optStr obs "uhost"
+  let isHostName := optBool obs "isHostName"
+  if err != "" then
+    return { agree := false, spec := false, tags := ["prep", "error:" ++ err], sig := "prep:error:" ++ err,
+             note := "the repaired prepareRequest never fails on a request net/http accepted" }
+  -- model
+  let url := targetURL serverURL escPath rawQuery
+  let afterAuth : List Char :=
+    -- strip "scheme://authority" (authority = u.Host, no userinfo in the generated server URLs)
+    let l := url.toList
+    let rec dropTo (l : List Char) (pat : List Char) (fuel : Nat) : List Char :=
+      match fuel with
+      | 0 => l
+      | fuel + 1 => if pat.isPrefixOf l then l.drop pat.length else
+          match l with | [] => [] | _ :: t => dropTo t pat fuel
+    dropTo l ("//" ++ uhost).toList l.length
+  let (mp, mq) := splitTarget afterAuth
+  let wantURI := String.ofList ((if mp.isEmpty then ['/'] else mp) ++ (if mq.isEmpty then [] else '?' :: mq))
+  let wantHost := hostSent ⟨serverURL, uhost, isHostName, keepHost⟩ clientHost
+  let wantHdr := cloneHeader canon hopHeaders h
+  let gotHdr := parseSeenHdr obs "hdrs"
+  let outURI := optStr obs "outURI"
+  let outHost := optStr obs "outHost"
+  let agree := outURI == wantURI && outHost == wantHost && hdrEq wantHdr gotHdr
+    && optStr obs "outMethod" == optStr input "method"
+  -- spec (declarative, on the observation)
+  let outPath := optStr obs "outPath"
+  let pathOK := decPath.toList.isSuffixOf outPath.toList
+  let queryOK := optStr obs "outQuery" == rawQuery
+  let table := parseIPTable obs
+  let isIP : List Char → Bool := fun l => (table.lookup (String.ofList l)).getD false
+  let hostSpec := match specHostPart uhost.toList with
+    | some hp => outHost == Spec.expectedHost (isIP hp) keepHost clientHost uhost
+    | none => true
+  let hv := Spec.headerViolation canon h gotHdr []
+  let bodyOK := optBool obs "bodyOK"
+  let methodOK := optStr obs "outMethod" == optStr input "method"
+  let sig :=
+    if !methodOK then "prep:method" else if !pathOK then "prep:path" else if !queryOK then "prep:query"
+    else if !hostSpec then "prep:host" else if !bodyOK then "prep:body"
+    else match hv with | some (kind, k) => s!"prep:{kind}:{k}" | none => ""
+  let escaped := escPath != decPath
+  pure { agree := agree, spec := sig == "", sig := sig,
+         expected := Json.mkObj [("uri", wantURI), ("host", wantHost), ("hdrs", hdrJson wantHdr)],
+         tags := ["prep", if escaped then "path-escaped" else "path-plain", if rawQuery == "" then "no-query" else "query",
+                  if isHostName then "server-hostname" else "server-ip", if keepHost then "keepHost" else "no-keepHost",
+                  if optInt input "limit" < 0 then "stream" else "buffered"],
+         nontrivial := escaped || rawQuery != "" }
+
+def unitOps : BodyOps Nat :=
+  { len := id, gz := fun n => n + 23, ungz := fun n => some (n - 23), ofStr := String.utf8ByteSize, take := min, empty := 0 }
+
+def judgeCompress (input obs : Json) : Except String Verdict := do
+  let ae := (getStrList input "ae").toOption.getD []
+  let ce := (getStrList input "ce").toOption.getD []
+  let cl := optInt input "cl" (-1)
+  let minLength := (optInt input "minLength").toNat
+  let bodyLen := (optInt input "bodyLen").toNat
+  let reqHdr : Hdr := ae.map fun v => (keyAE, [v])
+  let h0 : Hdr := ce.map fun v => (keyCE, [v])
+  let h1 := if cl ≥ 0 then h0.set keyCL (toString cl) else h0
+  let h := h1.set "X-Keep" "1"
+  let r : Resp Nat := ⟨200, h, cl, .stream bodyLen⟩
+  let want := proxyCompress unitOps minLength reqHdr r
+  let wantDid := want.payload != r.payload
+  let did := optBool obs "did"
+  let gotHdr := parseSeenHdr obs "hdrs"
+  let respCL := optInt obs "respCL" 0
+  let agree := did == wantDid && hdrEq want.hdr gotHdr && respCL == want.cl
+  let bodyOK := optBool obs "bodyOK"
+  let sig :=
+    if !bodyOK then "compress:body"
+    else if did then
+      if gotHdr.get keyCL != [] then "compress:content-length-header-kept"
+      else if respCL != -1 then "compress:stale-ContentLength-field"
+      else if !(gotHdr.get keyCE).any (fun v => strContains v "gzip") then "compress:unlabelled"
+      else ""
+    else if !hdrEq h gotHdr || respCL != cl then "compress:changed-without-compressing" else ""
+  pure { agree := agree, spec := sig == "", sig := sig,
+         expected := Json.mkObj [("did", wantDid), ("hdrs", hdrJson want.hdr), ("respCL", Json.num want.cl)],
+         tags := ["compress", if did then "compressed" else "skipped", if cl < 0 then "unknown-length" else "declared-length"],
+         nontrivial := did }
+
+def judgeUnit : Judge := liftJudge fun input obs => do
+  match obsPanic obs with
+  | some m => pure { agree := false, spec := false, sig := "panic:unit:" ++ optStr input "kind", note := m }
+  | none =>
+  match optStr input "kind" with
+  | "clone" => judgeClone input obs
+  | "addr" => judgeAddr input obs
+  | "prep" => judgePrep input obs
+  | "compress" => judgeCompress input obs
+  | k => throw ("unknown kind " ++ k)
+
+/-! ## end-to-end judge (pkg/object/httpserver loopback harness) -/
+
+def featureSuffix (sc : Scenario) : String :=
+  (if sc.method == "HEAD" then "+head" else "") ++
+  (if sc.compression ≥ 0 then "+pcomp" else "") ++
+  (match sc.respAd with
+    | some a => (if a.body != "" then "+adbody" else "") ++ (if a.compress then "+adcomp" else "") ++
+                (if a.decompress then "+addecomp" else "")
+    | none => "") ++
+  (if sc.bBody.enc == "cl" then "+declared" else "")
+
+def judgeE2E : Judge := liftJudge fun input obs => do
+  let sc := parseScenario input
+  match obsPanic obs with
+  | some m => pure { agree := false, spec := false, sig := "panic:e2e", note := m }
+  | none =>
+  if optStr obs "error" != "" then
+    return { agree := false, spec := true, note := "harness: " ++ optStr obs "error", nontrivial := false, tags := ["harness-error"] }
+  let o := parseOracle obs
+  let hits := (optInt obs "hits").toNat
+  let some c := parseSeenResp obs | throw "no client observation"
+  let bSeen := parseSeenReq obs
+  let b := build sc o defaultMax
+  let res := runModel b o.canon
+  let nobody := sc.method == "HEAD" || bodylessStatus c.status
+  -- ---------------- agreement with the model
+  let (agree, expected) : Bool × Json := match res with
+    | .early st => (hits == 0 && c.status == st, Json.mkObj [("early", st)])
+    | .adaptorFailed => (hits == 0 && c.status == 503, Json.mkObj [("adaptorFailed", true)])
+    | .proxied seen cl _ =>
+      let exp := Json.mkObj [("backend", Json.mkObj [("url", seen.url), ("host", seen.host), ("hdrs", hdrJson seen.hdr),
+          ("bodySum", seen.body.sum), ("bodyLen", seen.body.len)]),
+        ("client", Json.mkObj [("status", cl.status), ("hdrs", hdrJson cl.hdr), ("bodySum", cl.payload.content.sum),
+          ("bodyLen", cl.payload.content.len)])]
+      match bSeen with
+      | none => (false, exp)
+      | some bs =>
+        let wantURI := o.escPath ++ (if o.rawQuery == "" then "" else "?" ++ o.rawQuery)
+        let keysB := (b.clientHdr.map (·.1) ++ hopHeaders ++ [keyCE]).filter (· != keyCL)
+        let okB := bs.method == seen.method && bs.uri == wantURI && bs.host == seen.host
+          && hdrEqOn keysB seen.hdr bs.hdr && bs.bodySum == seen.body.sum
+        -- bodyless backend statuses: net/http itself drops Content-Type / Content-Length and the
+        -- encoding headers carry no meaning; only the scenario's own headers are compared
+        let keysC := if bodylessStatus sc.bStatus then (b.backendHdr.map (·.1)).filter (· != "Content-Type")
+          else b.backendHdr.map (·.1) ++ [keyCE, keyVary]
+        let okC := c.err == "" && c.status == cl.status && hdrEqOn keysC cl.hdr c.hdr && c.frameOK
+          && (nobody || (c.bodySum == cl.payload.content.sum
+                && (cl.hdr.get keyCL == [] || cl.hdr.get keyCL == [toString c.declared])))
+        (hits ≥ 1 && okB && okC, exp)
+  -- ---------------- the property, on the observation
+  let proxyOK := match res with | .proxied _ _ ok => ok | _ => false
+  let honest := sc.bBody.enc != "lie"
+  let reqSig : String := match res, bSeen with
+    | .proxied _ _ _, some bs =>
+      if bs.method != sc.method then "req:method"
+      else if bs.path != o.decPath then "req:path"
+      else if bs.rawQuery != o.rawQuery then "req:query"
+      else
+        let skip := [keyCL] ++ (if sc.reqAd.isSome then [keyCE] else [])
+        match Spec.headerViolation o.canon b.clientHdr bs.hdr skip with
+        | some (kind, k) => s!"req:{kind}:{k}"
+        | none =>
+          if bs.host != Spec.expectedHost (sc.serverKind == "ip") sc.keepHost sc.host o.serverHP then "req:host"
+          else
+            let bodyOK := match sc.reqAd with
+              | none => bs.bodySum == (wireSym sc.body o.req).sum
+              | some a => bs.decErr == "" && bs.decSum == (if a.body != "" then o.reqAd.sum else o.req.sum)
+            if bodyOK then "" else "req:body"
+    | .proxied _ _ _, none => "req:not-forwarded" ++ (if c.status == 500 then ":500" else "")
+    | _, _ => ""
+  let respSig : String :=
+    if c.err != "" then "resp:unreadable:" ++ c.err
+    else if !c.frameOK then "resp:framing:" ++ c.frameErr ++ featureSuffix sc
+    else if proxyOK && honest && hits ≥ 1 then
+      if c.status != sc.bStatus then s!"resp:status:{c.status}" ++ (if sc.method == "HEAD" then "+head" else "")
+          ++ (if sc.compression ≥ 0 then "+pcomp" else "")
+      else match Spec.respHeaderViolation
+          (if bodylessStatus sc.bStatus then b.backendHdr.filter (·.1 != "Content-Type") else b.backendHdr) c.hdr with
+        | some k => "resp:hdr-lost:" ++ k
+        | none =>
+          if nobody then ""
+          else
+            let want := match sc.respAd with
+              | some a => if a.body != "" then o.respAd.sum else o.back.sum
+              | none => o.back.sum
+            if c.decErr != "" || c.decSum != want then "resp:content" ++ featureSuffix sc else ""
+    else ""
+  let sig := if reqSig != "" then reqSig else respSig
+  let toks := connTokens o.canon b.clientHdr
+  let hopPresent := b.clientHdr.any fun e => Spec.isHop o.canon b.clientHdr e.1 && e.1 != "Connection"
+  let tags := ["m:" ++ sc.method, "server:" ++ sc.serverKind, if sc.keepHost then "keepHost" else "no-keepHost",
+      "req:" ++ sc.body.enc ++ ":" ++ sizeClass sc.body.len, "resp:" ++ sc.bBody.enc ++ ":" ++ sizeClass sc.bBody.len,
+      s!"status:{sc.bStatus}",
+      if o.escPath != o.decPath then "path-escaped" else "path-plain", if o.rawQuery == "" then "no-query" else "query",
+      if sc.compression ≥ 0 then "pcomp" else "no-pcomp",
+      match res with | .early st => s!"model:early-{st}" | .adaptorFailed => "model:adaptor-failed"
+                     | .proxied _ _ ok => if ok then "model:proxied" else "model:proxy-500"]
+    ++ (if sc.body.gzip then ["req-gzip"] else []) ++ (if sc.bBody.gzip then ["resp-gzip"] else [])
+    ++ (if sc.reqAd.isSome then ["reqAd"] else []) ++ (if sc.respAd.isSome then ["respAd"] else [])
+    ++ (if hopPresent then ["hop-header-sent"] else []) ++ (if toks.length > 1 then ["conn-tokens"] else [])
+    ++ (if sc.poolMax < 0 || (sc.poolMax == 0 && sc.proxyMax < 0) then ["resp-stream"] else ["resp-buffered"])
+    ++ (if sc.pathMax < 0 || (sc.pathMax == 0 && sc.serverMax < 0) then ["req-stream"] else ["req-buffered"])
+  pure { agree := agree, spec := sig == "", sig := sig, expected := expected, tags := tags,
+         nontrivial := hits ≥ 1 && (hopPresent || sc.body.len > 0 || sc.bBody.len > 0) }
+
+def judges : List (String × Judge) := [("unit", judgeUnit), ("e2e", judgeE2E)]
 
 end Driver.C03
 
